@@ -168,6 +168,12 @@ def run(tier, seed):
     rep.assume("Terminal.set_state/to_operational: the bus write happens at some point while the coroutine is "
                "awaited; asyncio.gather: on cancellation any subset of the children has done its write; "
                "Terminal.map_fmmu by its C20 contract; AsyncExitStack leaves all entered managers")
+    # FMMUs freed: the sync group relies on Terminal.map_fmmu's C20 contract
+    # (leaving frees the slot, also on failure and cancellation): it is
+    # re-proved in this run, so that a change inside map_fmmu fails here too
+    from contracts import c20_fmmu as S20
+    from props.c20 import native as native20
+    api.verify(S20.map_fmmu, rep, replay=native20, options={"cancellation": False})
     saved = dict(api.REGISTRY)
     S.install()
     try:
